@@ -61,7 +61,7 @@ def run_vec(ctx, family, big, label=None):
     """Run ApprovalVec for one family; returns the vectors with the outputs the
     specification demands (list of dicts)."""
     mc = '---- MODULE MCApprovalVec ----\nEXTENDS ApprovalVec\n%s====\n' % mc_tables('ApprovalTok', 'ApprovalVec')
-    cfg = ('INIT Init\nNEXT Next\nINVARIANTS Theorems ExpandSane\nPOSTCONDITION Written\nCHECK_DEADLOCK FALSE\n'
+    cfg = ('INIT Init\nNEXT Next\nINVARIANTS Theorems ServerTheorems ExpandSane\nPOSTCONDITION Written\nCHECK_DEADLOCK FALSE\n'
            'CONSTANTS\n D = %d\n NameOf <- MCNameOf\n ValOf <- MCValOf\n Family = "%s"\n Big = %s\n' % (
                D_VEC, family, 'TRUE' if big else 'FALSE'))
     r = ctx.tlc('MCApprovalVec', files={'MCApprovalVec.tla': mc}, cfg_text=cfg, workers=4,
@@ -399,7 +399,7 @@ def rand_case(rng, d, nweeks=2):
 
 
 # ------------------------------------------------------------------ naming a disagreement
-def classify_datum(cfg, x, local, datum, direction):
+def classify_datum(cfg, x, local, datum, direction, fields=None):
     """Name the class of one (build, name, value) triple that the report has
     and the specification does not demand ('extra') or the other way round
     ('missing').  local: set of triples of the local aggregate."""
@@ -410,7 +410,7 @@ def classify_datum(cfg, x, local, datum, direction):
         return '%s:%s:not-local-data' % (direction, kind)
     if lv[0] != v:
         return '%s:%s:value-differs-from-sum' % (direction, kind)
-    unl = Sem.unlisted_fields(cfg, b)
+    unl = [f for f in Sem.unlisted_fields(cfg, b) if fields is None or f in fields]
     if unl:
         return '%s:%s:build-unlisted:%s' % (direction, kind, '+'.join(unl))
     if kind == 'counter':
